@@ -10,6 +10,7 @@ pub fn run(id: &str, tier: &str, seed: u64) -> Result<String, String> {
         "bcf-roundtrip" => bcf_roundtrip(tier),
         "bam-roundtrip" => bam_roundtrip(tier),
         "cram-roundtrip" => cram_roundtrip(tier),
+        "index-query" => index_query(tier),
         "cram-decoders-hostile" => cram_decoders_hostile(tier, seed),
         n if n.starts_with("file-") && n.contains(':') => { let (t, h) = n[5..].split_once(':').unwrap(); let x: Vec<u8> = (0..h.len() / 2).map(|i| u8::from_str_radix(&h[2 * i..2 * i + 2], 16).unwrap()).collect(); let ts = crate::hostile::targets(); let t = ts.iter().find(|k| k.name == t).ok_or("unknown target")?; (t.run)(&x); Ok("\"ran\":1".into()) }
         "file-mutations" => crate::hostile::parent(tier, None),
@@ -654,5 +655,159 @@ fn cram_roundtrip(tier: &str) -> Result<String, String> {
     }
     let _ = std::panic::take_hook();
     if fails.is_empty() { Ok(format!("\"configurations_x_record_sets\":{cases},\"records\":{}", small_recs.len() + big_recs.len())) }
+    else { Err(format!("FAILURES\n{}", fails.values().cloned().collect::<Vec<_>>().join("\n"))) }
+}
+
+// ---------------------------------------------------------------------------------------------------------------------
+// C04 / C17 BOUNDED-NATIVE stand-in for the orchestration no contract reaches (indexers, csi::io::Query, the format readers'
+// re-filter, index files): coordinate-sorted BAM, bgzipped VCF and BCF files written by noodles, the BAI / CSI / tabix
+// index noodles builds for them — used in memory AND after being written to and read from an index file — and a family of
+// regions (point, bin-aligned, whole reference, half-bounded, empty reference): the query must return exactly the records
+// a full scan keeps, in file order.  Record spans are chosen to cross the 16 kb / 128 kb / 1 Mb / 8 Mb / 64 Mb bin edges,
+// with long records preceding short ones.  Never counted as proved.
+fn index_query(_tier: &str) -> Result<String, String> {
+    use noodles_sam as sam;
+    use noodles_vcf as vcf;
+    use noodles_csi::{self as csi, BinningIndex};
+    use sam::alignment::io::Write as _;
+    use vcf::variant::io::Write as _;
+    use std::collections::BTreeMap;
+    let dir = std::env::temp_dir().join(format!("verif-native-iq-{}", std::process::id()));
+    std::fs::create_dir_all(&dir).map_err(|e| format!("tmp dir: {e}"))?;
+    let mut fails: BTreeMap<String, String> = BTreeMap::new();
+    let mut queries = 0u64;
+    let p = |n: usize| noodles_core::Position::new(n).unwrap();
+    // (start, reference span) of the features on the first reference: crossing every bin edge, long before short
+    let edges = [16384usize, 131072, 1048576, 8388608, 67108864];
+    let mut feats: Vec<(usize, usize)> = vec![(1, 1), (1, 200_000), (100, 50), (16000, 500), (16384, 1), (16385, 1), (20000, 10), (20005, 3)];
+    for &e in &edges { feats.push((e - 100, 50)); feats.push((e - 10, 20)); feats.push((e, 1)); feats.push((e + 1, 30)); }
+    feats.push((5_000_000, 70_000_000)); feats.push((5_000_100, 10)); feats.push((70_000_000, 5)); feats.push((200_000_000, 100)); feats.push((536_870_000, 900));
+    feats.sort();
+    let regions_for = |name: &str| -> Vec<noodles_core::Region> {
+        let mut v: Vec<noodles_core::Region> = Vec::new();
+        let nm = |a: usize, b: usize| noodles_core::Region::new(name, p(a)..=p(b));
+        v.push(noodles_core::Region::new(name, ..)); v.push(nm(1, 1)); v.push(nm(1, 16384)); v.push(nm(16384, 16384)); v.push(nm(16385, 32768)); v.push(nm(20001, 20002)); v.push(nm(20005, 20006)); v.push(nm(150_000, 150_100));
+        for &e in &edges { v.push(nm(e, e)); v.push(nm(e + 1, e + 1)); v.push(nm(e - 5, e + 5)); }
+        v.push(nm(60_000_000, 60_000_010)); v.push(nm(74_999_990, 75_000_200)); v.push(nm(300_000_000, 400_000_000)); v.push(nm(536_870_500, 536_870_911));
+        v.push(noodles_core::Region::new(name, p(20000)..)); v.push(noodles_core::Region::new(name, p(67_108_864)..)); v.push(noodles_core::Region::new(name, ..=p(16384))); v.push(noodles_core::Region::new(name, ..=p(99)));
+        v
+    };
+    // (file + index kind, what is wrong) -> every region where it is wrong, with the records concerned.  Reported as ONE finding per key
+    // with the number of regions and a digest of the whole list, so that a recorded finding only matches the exact same set of wrong answers.
+    let mut mism: BTreeMap<String, Vec<String>> = BTreeMap::new();
+    std::panic::set_hook(Box::new(|_| {}));
+    // =============================================== BAM ===============================================
+    let bam_path = dir.join("a.bam");
+    let r = std::panic::catch_unwind(std::panic::AssertUnwindSafe(|| -> Result<(), String> {
+        let header: sam::Header = "@HD\tVN:1.6\tSO:coordinate\n@SQ\tSN:sq0\tLN:536870911\n@SQ\tSN:empty\tLN:1000\n@SQ\tSN:sq2\tLN:100000\n".parse().map_err(|e| format!("header: {e}"))?;
+        let mut lines = String::new();
+        for (i, (s, span)) in feats.iter().enumerate() { let cigar = if *span == 1 { "1M".to_string() } else { format!("1M{}N1M", span - 2).replace("1M0N1M", "2M") }; let seq = if *span == 1 { "A" } else { "AC" }; lines.push_str(&format!("r{i}\t0\tsq0\t{s}\t30\t{cigar}\t*\t0\t0\t{seq}\t{}\n", "I".repeat(seq.len()))); }
+        for i in 0..300 { lines.push_str(&format!("m{i}\t0\tsq2\t{}\t30\t10M\t*\t0\t0\tACGTACGTAC\tIIIIIIIIII\n", 1 + i * 7)); }
+        lines.push_str("pu\t4\tsq2\t5000\t0\t*\t*\t0\t0\tACGT\tIIII\n");
+        for i in 0..5 { lines.push_str(&format!("u{i}\t4\t*\t0\t0\t*\t*\t0\t0\tACGT\tIIII\n")); }
+        let mut rd = sam::io::Reader::new(lines.as_bytes());
+        let recs: Vec<sam::alignment::RecordBuf> = rd.record_bufs(&header).collect::<Result<_, _>>().map_err(|e| format!("sam: {e}"))?;
+        { let mut w = noodles_bam::io::Writer::new(std::fs::File::create(&bam_path).map_err(|e| format!("create: {e}"))?); w.write_header(&header).map_err(|e| format!("write_header: {e}"))?; for r in &recs { w.write_alignment_record(&header, r).map_err(|e| format!("write: {e}"))?; } w.try_finish().map_err(|e| format!("finish: {e}"))?; }
+        let key = |r: &sam::alignment::RecordBuf| format!("{}", r.name().map(|n| n.to_string()).unwrap_or_default());
+        let bai = noodles_bam::fs::index(&bam_path).map_err(|e| format!("bam::fs::index: {e}"))?;
+        noodles_bam::bai::fs::write(dir.join("a.bai"), &bai).map_err(|e| format!("bai write: {e}"))?;
+        let bai2 = noodles_bam::bai::fs::read(dir.join("a.bai")).map_err(|e| format!("bai read: {e}"))?;
+        // a CSI index for the same file, built the way bam::fs::index builds the BAI
+        let csi_mem = { let mut rd = noodles_bam::io::Reader::new(std::fs::File::open(&bam_path).map_err(|e| format!("open: {e}"))?); rd.read_header().map_err(|e| format!("read_header: {e}"))?;
+            let mut ix = csi::binning_index::Indexer::<csi::binning_index::index::reference_sequence::index::BinnedIndex>::new(14, 5);
+            let mut rec = noodles_bam::Record::default(); let mut start = rd.get_ref().virtual_position();
+            while rd.read_record(&mut rec).map_err(|e| format!("read_record: {e}"))? != 0 { let end = rd.get_ref().virtual_position(); let chunk = csi::binning_index::index::reference_sequence::bin::Chunk::new(start, end);
+                use sam::alignment::Record as _;
+                let ctx = match (rec.reference_sequence_id().transpose().map_err(|e| format!("{e}"))?, rec.alignment_start().transpose().map_err(|e| format!("{e}"))?, rec.alignment_end().transpose().map_err(|e| format!("{e}"))?) { (Some(id), Some(s), Some(e)) => Some((id, s, e, !rec.flags().is_unmapped())), _ => None };
+                ix.add_record(ctx, chunk).map_err(|e| format!("add_record: {e}"))?; start = end; }
+            ix.build(3) };
+        csi::fs::write(dir.join("a.csi"), &csi_mem).map_err(|e| format!("csi write: {e}"))?;
+        let csi_file = csi::fs::read(dir.join("a.csi")).map_err(|e| format!("csi read: {e}"))?;
+        let mut run = |iname: &str, query: &mut dyn FnMut(&noodles_core::Region) -> Result<Vec<String>, String>| {
+            for refname in ["sq0", "empty", "sq2"] { let rid = header.reference_sequences().get_index_of(refname.as_bytes()).unwrap();
+                for region in regions_for(refname) {
+                    if refname != "sq0" && region.interval().start().map(usize::from).unwrap_or(1) > 100_000 { continue; }
+                    let expected: Vec<String> = recs.iter().filter(|r| r.reference_sequence_id() == Some(rid) && match (r.alignment_start(), r.alignment_end()) { (Some(s), Some(e)) => region.interval().intersects((s..=e).into()), _ => false }).map(key).collect();
+                    queries += 1;
+                    match query(&region) { Ok(got) => if got != expected { let missing: Vec<&String> = expected.iter().filter(|x| !got.contains(x)).collect(); let extra: Vec<&String> = got.iter().filter(|x| !expected.contains(x)).collect();
+                            let what = if !missing.is_empty() { "omits records a scan keeps" } else if !extra.is_empty() { "returns records a scan drops" } else { "returns the records in a different order or more than once" };
+                            mism.entry(format!("BAM + {iname}]: {what}")).or_default().push(format!("{region}: missing {missing:?} extra {extra:?} got {}", got.len())); },
+                        Err(e) => { fails.entry(format!("bam {iname} error")).or_insert_with(|| format!("index query [BAM + {iname}]: region {region} fails: {e}")); } }
+                } }
+        };
+        macro_rules! q { ($ix:expr) => { &mut |region: &noodles_core::Region| -> Result<Vec<String>, String> { let mut rd = noodles_bam::io::Reader::new(std::fs::File::open(&bam_path).map_err(|e| format!("open: {e}"))?); let h = rd.read_header().map_err(|e| format!("read_header: {e}"))?; let q = rd.query(&h, $ix, region).map_err(|e| format!("query: {e}"))?; q.records().map(|r| r.map(|r| { use sam::alignment::Record as _; r.name().map(|n| n.to_string()).unwrap_or_default() })).collect::<Result<Vec<_>, _>>().map_err(|e| format!("record: {e}")) } } }
+        run("BAI in memory", q!(&bai)); run("BAI from file", q!(&bai2)); run("CSI in memory", q!(&csi_mem)); run("CSI from file", q!(&csi_file));
+        // the unmapped query: every unplaced unmapped record, in file order, nothing else
+        for (iname, ix) in [("BAI in memory", &bai), ("BAI from file", &bai2)] {
+            let mut rd = noodles_bam::io::Reader::new(std::fs::File::open(&bam_path).map_err(|e| format!("open: {e}"))?); rd.read_header().map_err(|e| format!("read_header: {e}"))?;
+            let got: Vec<String> = rd.query_unmapped(ix).map_err(|e| format!("query_unmapped: {e}"))?.map(|r| r.map(|r| { use sam::alignment::Record as _; r.name().map(|n| n.to_string()).unwrap_or_default() })).collect::<Result<_, _>>().map_err(|e| format!("unmapped record: {e}"))?;
+            let expected: Vec<String> = recs.iter().filter(|r| r.reference_sequence_id().is_none()).map(key).collect();
+            queries += 1;
+            // every unplaced unmapped record, in file order; anything else returned must at least be flagged unmapped (a PLACED unmapped read may show up)
+            let unplaced_got: Vec<String> = got.iter().filter(|g| expected.contains(g)).cloned().collect();
+            let not_unmapped: Vec<&String> = got.iter().filter(|g| recs.iter().any(|r| &key(r) == *g && !r.flags().is_unmapped())).collect();
+            if unplaced_got != expected || !not_unmapped.is_empty() { fails.entry(format!("bam {iname} unmapped")).or_insert_with(|| format!("index query [BAM + {iname}]: the unmapped query returns {got:?}; the unplaced unmapped records are {expected:?}")); }
+        }
+        if bai.unplaced_unmapped_record_count() != Some(5) || bai2.unplaced_unmapped_record_count() != Some(5) { fails.entry("bam unplaced count".into()).or_insert_with(|| format!("index [BAI]: unplaced unmapped record count {:?} in memory / {:?} from file, expected Some(5)", bai.unplaced_unmapped_record_count(), bai2.unplaced_unmapped_record_count())); }
+        Ok(())
+    }));
+    match r { Err(_) => { fails.entry("bam panic".into()).or_insert_with(|| "index query [BAM]: PANICS".into()); } Ok(Err(e)) => { fails.entry("bam setup".into()).or_insert_with(|| format!("index query [BAM]: {e}")); } Ok(Ok(())) => {} }
+    // =============================================== VCF (tabix) and BCF (CSI) ===============================================
+    let r = std::panic::catch_unwind(std::panic::AssertUnwindSafe(|| -> Result<(), String> {
+        for (fmt, fileformat) in [("VCF 4.3", "VCFv4.3"), ("VCF 4.5", "VCFv4.5")] {
+            let mut text = format!("##fileformat={fileformat}\n##INFO=<ID=END,Number=1,Type=Integer,Description=\"e\">\n##INFO=<ID=SVLEN,Number={},Type=Integer,Description=\"l\">\n##FORMAT=<ID=GT,Number=1,Type=String,Description=\"g\">\n##FORMAT=<ID=LEN,Number=1,Type=Integer,Description=\"l\">\n##contig=<ID=sq0,length=536870911>\n##contig=<ID=empty,length=1000>\n##contig=<ID=sq2,length=100000>\n#CHROM\tPOS\tID\tREF\tALT\tQUAL\tFILTER\tINFO\tFORMAT\ts0\ts1\n", if fileformat == "VCFv4.3" { "." } else { "A" });
+            for (i, (s, span)) in feats.iter().enumerate() {
+                // spans come from REF length, INFO END (<= 4.4), or SVLEN / per-sample LEN (4.5)
+                let line = if *span <= 30 { format!("sq0\t{s}\tv{i}\t{}\tT\t.\t.\t.\tGT\t0/1\t0/0\n", "A".repeat(*span)) }
+                    else if fileformat == "VCFv4.5" { if i % 2 == 0 { format!("sq0\t{s}\tv{i}\tA\t<DEL>\t.\t.\tSVLEN={span}\tGT\t0/1\t0/0\n") } else { format!("sq0\t{s}\tv{i}\tA\t<*>\t.\t.\t.\tGT:LEN\t0/0:{}\t0/0:{span}\n", span / 2) } }
+                    else { format!("sq0\t{s}\tv{i}\tA\t<DEL>\t.\t.\tEND={}\tGT\t0/1\t0/0\n", s + span - 1) };
+                text.push_str(&line);
+            }
+            for i in 0..300 { text.push_str(&format!("sq2\t{}\tw{i}\tACGTA\tA\t.\t.\t.\tGT\t0/1\t1/1\n", 1 + i * 7)); }
+            let mut rd = vcf::io::Reader::new(text.as_bytes()); let header = rd.read_header().map_err(|e| format!("{fmt} header: {e:?}"))?;
+            let recs: Vec<vcf::variant::RecordBuf> = rd.record_bufs(&header).collect::<Result<_, _>>().map_err(|e| format!("{fmt}: {e}"))?;
+            let vpath = dir.join(format!("{fileformat}.vcf.gz")); let bpath = dir.join(format!("{fileformat}.bcf"));
+            { let mut w = vcf::io::Writer::new(noodles_bgzf::io::Writer::new(std::fs::File::create(&vpath).map_err(|e| format!("create: {e}"))?)); w.write_header(&header).map_err(|e| format!("write_header: {e}"))?; for r in &recs { w.write_variant_record(&header, r).map_err(|e| format!("vcf write: {e}"))?; } w.get_mut().try_finish().map_err(|e| format!("finish: {e}"))?; }
+            let bcf_ok = (|| -> Result<(), String> { let mut w = noodles_bcf::io::Writer::new(std::fs::File::create(&bpath).map_err(|e| format!("create: {e}"))?); w.write_header(&header).map_err(|e| format!("write_header: {e}"))?; for r in &recs { w.write_variant_record(&header, r).map_err(|e| format!("bcf write: {e}"))?; } w.try_finish().map_err(|e| format!("finish: {e}")) })();
+            let key = |r: &vcf::variant::RecordBuf| r.ids().as_ref().iter().next().cloned().unwrap_or_default();
+            let span_end = |r: &vcf::variant::RecordBuf| -> Option<(noodles_core::Position, noodles_core::Position)> { use vcf::variant::Record as _; Some((r.variant_start()?, r.variant_end(&header).ok()?)) };
+            let tbi = vcf::fs::index(&vpath).map_err(|e| format!("vcf::fs::index ({fmt}): {e}"))?;
+            noodles_tabix::fs::write(dir.join("v.tbi"), &tbi).map_err(|e| format!("tabix write: {e}"))?; let tbi2 = noodles_tabix::fs::read(dir.join("v.tbi")).map_err(|e| format!("tabix read: {e}"))?;
+            let mut check = |what: &str, refname: &str, region: &noodles_core::Region, got: Result<Vec<String>, String>| {
+                let expected: Vec<String> = recs.iter().filter(|r| r.reference_sequence_name() == refname && match span_end(r) { Some((s, e)) => region.interval().intersects((s..=e).into()), None => false }).map(key).collect();
+                queries += 1;
+                match got { Ok(got) => if got != expected { let missing: Vec<&String> = expected.iter().filter(|x| !got.contains(x)).collect(); let extra: Vec<&String> = got.iter().filter(|x| !expected.contains(x)).collect();
+                        let w = if !missing.is_empty() { "omits records a scan keeps" } else if !extra.is_empty() { "returns records a scan drops" } else { "returns the records in a different order or more than once" };
+                        mism.entry(format!("{fmt} + {what}]: {w}")).or_default().push(format!("{region}: missing {missing:?} extra {extra:?} got {}", got.len())); },
+                    Err(e) => { fails.entry(format!("{fmt} {what} error")).or_insert_with(|| format!("index query [{fmt} + {what}]: region {region} fails: {e}")); } }
+            };
+            for refname in ["sq0", "empty", "sq2"] { for region in regions_for(refname) {
+                if refname != "sq0" && region.interval().start().map(usize::from).unwrap_or(1) > 100_000 { continue; }
+                if refname == "empty" { continue; }   // tabix only knows the names that occur in the file
+                for (iname, ix) in [("tabix in memory", &tbi), ("tabix from file", &tbi2)] {
+                    let got = (|| -> Result<Vec<String>, String> { let mut rd = vcf::io::Reader::new(noodles_bgzf::io::Reader::new(std::fs::File::open(&vpath).map_err(|e| format!("open: {e}"))?)); let h = rd.read_header().map_err(|e| format!("read_header: {e}"))?; let q = rd.query(&h, ix, &region).map_err(|e| format!("query: {e}"))?; q.records().map(|r| r.map(|r| { use vcf::variant::Record as _; use vcf::variant::record::Ids as _; r.ids().iter().next().map(|s| s.to_string()).unwrap_or_default() })).collect::<Result<Vec<_>, _>>().map_err(|e| format!("record: {e}")) })();
+                    check(iname, refname, &region, got);
+                }
+            } }
+            if let Err(e) = &bcf_ok { if fileformat == "VCFv4.3" { fails.entry("bcf write".into()).or_insert_with(|| format!("index query [BCF]: writing the BCF file fails: {e}")); } continue; }
+            let cix = noodles_bcf::fs::index(&bpath).map_err(|e| format!("bcf::fs::index ({fmt}): {e}"))?;
+            csi::fs::write(dir.join("b.csi"), &cix).map_err(|e| format!("csi write: {e}"))?; let cix2 = csi::fs::read(dir.join("b.csi")).map_err(|e| format!("csi read: {e}"))?;
+            for refname in ["sq0", "empty", "sq2"] { for region in regions_for(refname) {
+                if refname != "sq0" && region.interval().start().map(usize::from).unwrap_or(1) > 100_000 { continue; }
+                for (iname, ix) in [("BCF CSI in memory", &cix), ("BCF CSI from file", &cix2)] {
+                    let got = (|| -> Result<Vec<String>, String> { let mut rd = noodles_bcf::io::Reader::new(std::fs::File::open(&bpath).map_err(|e| format!("open: {e}"))?); let h = rd.read_header().map_err(|e| format!("read_header: {e}"))?; let q = rd.query(&h, ix, &region).map_err(|e| format!("query: {e}"))?; q.records().map(|r| r.map(|r| { use vcf::variant::Record as _; use vcf::variant::record::Ids as _; r.ids().iter().next().map(|s| s.to_string()).unwrap_or_default() })).collect::<Result<Vec<_>, _>>().map_err(|e| format!("record: {e}")) })();
+                    check(iname, refname, &region, got);
+                }
+            } }
+        }
+        Ok(())
+    }));
+    match r { Err(_) => { fails.entry("vcf panic".into()).or_insert_with(|| "index query [VCF/BCF]: PANICS".into()); } Ok(Err(e)) => { fails.entry("vcf setup".into()).or_insert_with(|| format!("index query [VCF/BCF]: {e}")); } Ok(Ok(())) => {} }
+    let _ = std::panic::take_hook();
+    let _ = std::fs::remove_dir_all(&dir);
+    for (k, v) in &mism { let mut h: u64 = 0xcbf29ce484222325; for b in v.join("|").bytes() { h ^= b as u64; h = h.wrapping_mul(0x100000001b3); }
+        fails.insert(format!("m {k}"), format!("index query [{k} in {} region(s), digest {:08x}; first: {}", v.len(), h as u32, &v[0][..v[0].len().min(160)])); }
+    if queries < 200 && fails.is_empty() { return Err(format!("UNDECIDED: only {queries} queries ran")); }
+    if fails.is_empty() { Ok(format!("\"queries\":{queries},\"features_per_file\":{}", feats.len() + 300)) }
     else { Err(format!("FAILURES\n{}", fails.values().cloned().collect::<Vec<_>>().join("\n"))) }
 }
